@@ -200,3 +200,66 @@ def codec_scope(tier):
         add("rec_in_rec", rec(nm("O"), [("i", rec(nm("I"), [("x", prim("string")), ("y", un(prim("null"), prim("long")))])),
                                         ("z", prim("boolean"))]))
     return out
+
+
+def matrix_scope(tier):
+    """schemas of the C02 (node kind x presentation) matrix: every effective kind at the root, the record / enum /
+    fixed shapes the presentations of SerdePres.tla aim at, and small unions exercising the union rule."""
+    out = []
+
+    def add(name, tree):
+        out.append({"sid": name, "nodes": flatten(tree)["nodes"]})
+
+    R = lambda: rec("ns.R", [("a", prim("int")), ("b", un(prim("null"), prim("string")))])  # noqa: E731
+    E = lambda: enum("ns.E", ["A", "B"])  # noqa: E731
+    F2 = lambda: fixed("F", 2)  # noqa: E731
+    DUR = lambda: fixed("Du", 12, "duration")  # noqa: E731
+    for k in ["null", "boolean", "int", "long", "float", "double", "bytes", "string"]:
+        add(f"m_{k}", prim(k))
+    for k, lt in [("int", "date"), ("int", "time-millis"), ("long", "time-micros"), ("long", "timestamp-millis"),
+                  ("long", "timestamp-micros"), ("string", "uuid"), ("bytes", "big-decimal"), ("int", "weird-unknown")]:
+        add(f"m_{lt}", prim(k, lt))
+    add("m_enum", E())
+    add("m_fixed2", F2())
+    add("m_fixed0", fixed("F0", 0))
+    add("m_fixed12", fixed("F12", 12))
+    add("m_duration", DUR())
+    add("m_dec_bytes0", prim("bytes", "decimal", prec=10, scale=0))
+    add("m_dec_bytes2", prim("bytes", "decimal", prec=10, scale=2))
+    add("m_dec_bytes28", prim("bytes", "decimal", prec=29, scale=28))
+    for size in [1, 2, 8, 16, 17]:
+        add(f"m_dec_fixed{size}", fixed(f"DF{size}", size, "decimal", prec=3, scale=0))
+    add("m_dec_fixed2s1", fixed("DFs", 2, "decimal", prec=4, scale=1))
+    add("m_record", R())
+    add("m_record_req", rec("ns.R", [("a", prim("int")), ("b", prim("string"))]))
+    add("m_record_null", rec("ns.R", [("a", prim("int")), ("b", prim("null"))]))
+    add("m_record_rev", rec("ns.R", [("a", prim("int")), ("b", un(prim("string"), prim("null")))]))
+    add("m_array_int", arr(prim("int")))
+    add("m_array_bytes", arr(prim("bytes")))
+    add("m_map_int", mp(prim("int")))
+    add("m_map_optstr", mp(un(prim("null"), prim("string"))))
+    # unions
+    add("u_null_int", un(prim("null"), prim("int")))
+    add("u_int_null", un(prim("int"), prim("null")))
+    add("u_int_long", un(prim("int"), prim("long")))
+    add("u_long_float_double", un(prim("long"), prim("float"), prim("double")))
+    add("u_null_string_bytes", un(prim("null"), prim("string"), prim("bytes")))
+    add("u_int_enum", un(prim("int"), E()))
+    add("u_string_enum", un(prim("string"), E()))
+    add("u_null_enum", un(prim("null"), E()))
+    add("u_null_int_enum", un(prim("null"), prim("int"), E()))
+    add("u_bytes_fixed", un(prim("bytes"), F2()))
+    add("u_string_fixed", un(prim("string"), F2()))
+    add("u_null_record", un(prim("null"), R()))
+    add("u_record_map", un(R(), mp(prim("int"))))
+    add("u_two_records", un(R(), rec("other.R", [("a", prim("int")), ("b", prim("int"))])))
+    add("u_array_bytes", un(arr(prim("int")), prim("bytes")))
+    add("u_string_uuid", un(prim("string"), prim("string", "uuid")))
+    add("u_null_decimal", un(prim("null"), prim("bytes", "decimal", prec=10, scale=1)))
+    add("u_int_decimal", un(prim("int"), prim("bytes", "decimal", prec=10, scale=0)))
+    add("u_bytes_duration", un(prim("bytes"), DUR()))
+    add("u_string_duration", un(prim("string"), DUR()))
+    add("u_null_duration", un(prim("null"), DUR()))
+    add("u_date_long", un(prim("int", "date"), prim("long")))
+    add("u_bool_double", un(prim("boolean"), prim("double")))
+    return out
